@@ -3,7 +3,10 @@ package customize
 // Verification helper (injected with go -overlay; not part of /repo).
 
 import (
+	"encoding/json"
+
 	"k8s.io/apimachinery/pkg/runtime/schema"
+	"k8s.io/apimachinery/pkg/types"
 
 	dynamicinformer "metacontroller/pkg/dynamic/informer"
 )
@@ -12,4 +15,19 @@ import (
 // GetRelatedObjects reads it instead of starting a real one.
 func (rm *Manager) VerifSetRelatedInformer(gvr schema.GroupVersionResource, informer *dynamicinformer.ResourceInformer) {
 	rm.relatedInformers.Set(gvr, informer)
+}
+
+// VerifCachedResponse returns the cached customize answer for parent's (UID, generation), as JSON.
+func (rm *Manager) VerifCachedResponse(uid types.UID, generation int64) (interface{}, bool) {
+	resp, ok := rm.customizeCache.Get(customizeKey{uid, generation})
+	if !ok {
+		return nil, false
+	}
+	b, err := json.Marshal(resp)
+	if err != nil {
+		return nil, false
+	}
+	var v interface{}
+	_ = json.Unmarshal(b, &v)
+	return v, true
 }
